@@ -21,7 +21,8 @@ Inductive atom :=
 | AParam (s : str)
 | AInterp (sql : bool) (parts : list ipart)     (* s"..." (true) / f"..." (false) *)
 | AInternal (s : str)
-| APar (s : str).                                (* the name of a lambda parameter (a token, never an expression) *)
+| APar (s : str)                                 (* the name of a lambda parameter / declared name (a token, never an expression) *)
+| APath (path : list str).                       (* the path of an import (written by Ident::write) *)
 
 (* ------------------------------------------------------------------ expressions *)
 Inductive gkind := GPipe | GTup | GArr | GCase.
@@ -42,6 +43,9 @@ Inductive expr :=
 | ENamed (n : str) (e : expr)
 | EFunc (ps : list str) (ds : list expr) (b : expr).
 
+(* statement keywords *)
+Inductive kw := KLet | KModule | KImport | KInto.
+
 (* ------------------------------------------------------------------ tokens *)
 (* TS s un : operator symbol s (an index into the symbol table); `un` records that the printer emitted it in
    prefix position (only used for spacing when rendering; the parser ignores it -- `-` is one token).
@@ -54,7 +58,9 @@ Inductive tok :=
 | TOpen (k : gkind) | TClose (k : gkind)
 | TComma | TPipe | TArrow
 | TAlias (n : str) | TNamed (n : str)
-| TFunc | TThin.
+| TFunc | TThin
+(* statement level: a line break followed by `ind` units of indentation; a statement keyword; the `@` of an annotation *)
+| TNL (ind : nat) | TKw (k : kw) | TAnn.
 
 Definition gkind_eqb (a b : gkind) : bool :=
   match a, b with GPipe, GPipe | GTup, GTup | GArr, GArr | GCase, GCase => true | _, _ => false end.
